@@ -28,6 +28,8 @@ CONFUSABLE_GROUPS = [
     ["a/b", "a%2Fb", "a_b"], ["a\\b", "a%5Cb"], ["a:b", "a%3Ab"], ["a<b", "a%3Cb"], ["a>b", "a%3Eb"], ["a|b", "a%7Cb"], ["a b", "a%20b"],
     ["a^b", "a%5Eb", "a^", "a^A"], ["A_", "a__", "_a"], ["é", "É", "e\u0301"], ["ß", "ẞ", "ss"], ["a" * 63, "A" * 63, "a" * 62 + "A"],
     ["a+b", "a%2Bb"], ["a#b", "a%23b"], ["a&b", "a%26b"], ["a'b", "a%27b"], ["COM1", "com1", "lpt1.liga", "LPT1.liga"],
+    # names that look like references to something else once written as a plain string: a kerning group, a glyph class
+    ["@side1.caps", "side1.caps", "@side2.caps"], ["@at", "at", "@"],
 ]
 
 
@@ -60,9 +62,15 @@ def hostile_model(model, i):
     for k in ("public.glyphOrder", "public.skipExportGlyphs"):
         if k in model["lib"]:
             model["lib"][k] = [ren.get(n, n) for n in model["lib"][k]]
-    for m in model["masters"]:
-        m["kerning"] = {}
+    # the hostile names are kerned directly (glyph to glyph): the kerning items written with --emit-ir carry the names as keys
+    names = [g["name"] for g in model["glyphs"] if g["name"] != ".notdef" and g.get("export", True)]
+    pairs = [(rng.choice(names), rng.choice(names)) for _ in range(min(16, 2 * len(names)))] if names else []
+    for mi, m in enumerate(model["masters"]):
         m["groups"] = {}
+        m["kerning"] = {}
+        if m.get("layer") is None:
+            for k, (a, b) in enumerate(pairs):
+                m["kerning"].setdefault(a, {})[b] = -10 * (k + 1) - 7 * mi
     return model
 
 
